@@ -118,6 +118,34 @@ def formulas(repo):
     if len(hits) != 1:
         raise TranslationError('%s: %d assignments to keep_weight' % (path, len(hits)))
     out['kwPrf'] = (tr(hits[0].value), 'C06.kwPrfProg', 'WEx')
+    # candidate.py: the `surplus` property
+    path = os.path.join(repo, 'droop', 'candidate.py')
+    tree = ast.parse(open(path).read(), path)
+    fs_ = [n for n in ast.walk(tree) if isinstance(n, ast.FunctionDef) and n.name == 'surplus']
+    if len(fs_) != 1:
+        raise TranslationError('%s: %d definitions of surplus' % (path, len(fs_)))
+    env = {}
+    body = [st for st in fs_[0].body if not (isinstance(st, ast.Expr) and isinstance(st.value, ast.Constant))]
+
+    def trs(n):
+        p = _path(n)
+        if p == 'self.vote': return '.vote'
+        if p == 'self.E.quota': return '.quota'
+        if p == 'self.E.V0': return '.zero'
+        if isinstance(n, ast.Name) and n.id in env: return env[n.id]
+        if isinstance(n, ast.BinOp) and isinstance(n.op, ast.Sub):
+            return '(.minus %s %s)' % (trs(n.left), trs(n.right))
+        if isinstance(n, ast.IfExp) and isinstance(n.test, ast.Compare) and len(n.test.ops) == 1 and isinstance(n.test.ops[0], ast.Lt):
+            return '(.iteLt %s %s %s %s)' % (trs(n.test.left), trs(n.test.comparators[0]), trs(n.body), trs(n.orelse))
+        raise TranslationError('not a surplus expression of the accepted form: %s' % ast.dump(n)[:140])
+    for st in body[:-1]:
+        if isinstance(st, ast.Assign) and len(st.targets) == 1 and isinstance(st.targets[0], ast.Name):
+            env[st.targets[0].id] = trs(st.value)
+        else:
+            raise TranslationError('%s: statement not accepted in surplus: %s' % (path, ast.dump(st)[:120]))
+    if not (isinstance(body[-1], ast.Return) and body[-1].value is not None):
+        raise TranslationError('%s: surplus does not end in a return' % path)
+    out['candSurplus'] = (trs(body[-1].value), 'C06.candSurplusProg', 'WEx')
     # qpq.py: the quotient of a hopeful candidate and the contribution given on election
     path = os.path.join(repo, 'droop', 'rules', 'qpq.py')
     tree = ast.parse(open(path).read(), path)
